@@ -749,7 +749,7 @@ func (s *String) ReadOptionalASN1Boolean(out *bool, tag asn1.Tag, defaultValue b
 		return true
 	}
 
-	return child.ReadASN1Boolean(out)
+	return child.ReadASN1Boolean(out) && child.Empty()
 }
 
 func (s *String) readASN1(out *String, outTag *asn1.Tag, skipHeader bool) bool {
